@@ -91,6 +91,8 @@ class CtxSimpleOpWriteHandler(AbstractWriteHandler):
                     self.start_vertex,
                     check_end_block=Once(),  # Only output one.
                     disallow_nested=True,
+                    # The block holds exactly one operation; if the routine ends with it, the return goes after it.
+                    insert_missing_end=False,
                 ).write_content()
             except NestedBlockDisallowedError:
                 raise ValueError(
